@@ -2,6 +2,7 @@
 use vcommon::Args;
 
 mod c01;
+#[cfg(feature = "with-examples")]
 mod c01x;
 mod c02;
 mod c03;
@@ -28,6 +29,7 @@ fn main() {
     let args = Args::parse();
     match args.stage.as_str() {
         "c01" => c01::run(&args),
+        #[cfg(feature = "with-examples")]
         "c01_examples" => c01x::run(&args),
         "c02" => c02::run(&args),
         "c03" => c03::run(&args),
